@@ -58,7 +58,7 @@ pub fn alphabet() -> Vec<Vec<Value>> {
         ],
         vec![
             rule("bc", 9, "/b", Some("/c"), Some(302), json!({}), vec![ex("/b", true, &["ru-bc"])]),
-            rule("bc", 9, "/b", Some("/a"), Some(302), json!({}), vec![ex("/b", true, &["ru-bc"])]),
+            rule("bc", 9, "/b", Some("/a"), Some(302), json!({}), vec![ex("/b", true, &["ru-bc"]), ex("/b", false, &[])]),
         ],
         vec![
             rule("ss", 8, "/s", Some("/s"), Some(301), json!({}), vec![ex("/s", true, &["ru-ss"]), json!({"url": "/s", "method": "POST", "headers": null, "ip_address": null, "response_status_code": null, "must_match": true, "unit_ids_applied": ["ru-ss"]})]),
@@ -97,6 +97,12 @@ pub fn alphabet() -> Vec<Vec<Value>> {
                  "body_filters": [{"action": "append_text", "content": "<!-- 404 -->", "id": "ub4", "target_hash": null}]}), vec![json!({"url": "/c", "method": null, "headers": null, "ip_address": null, "response_status_code": 404, "must_match": true, "unit_ids_applied": ["uf4", "ub4"]})]),
             rule("f4", 1, "/c", None, None, json!({"source": {"response_status_codes": [404], "exclude_response_status_codes": true}, "header_filters": [{"action": "add", "header": "X-Not-404", "value": "1", "id": "uf4", "target_hash": "tf4"}]}), vec![ex("/c", true, &["uf4"])]),
         ],
+        // the only pattern rule of its bucket, with an upper-case literal: a change-set that updates it empties and refills the
+        // path tree (explored under ignore_path_and_query_case as well)
+        vec![
+            rule("dc", 14, "/Shop/@m", Some("/s2/@m"), Some(301), json!({"markers": [{"name": "m", "regex": "[a-z]+", "transformers": []}]}), vec![ex("/Shop/x", true, &["ru-dc"]), ex("/shop/x", true, &["ru-dc"])]),
+            rule("dc", 14, "/Shop/@m", Some("/s3/@m"), Some(302), json!({"markers": [{"name": "m", "regex": "[a-z]+", "transformers": []}]}), vec![ex("/Shop/x", true, &["ru-dc"])]),
+        ],
         vec![
             rule("ab2", 12, "/x", Some("https://other.org/y"), Some(301), json!({}), vec![ex("/x", true, &["ru-ab2"])]),
             rule("ab2", 12, "/x", Some(&format!("https://{HOST}/a")), Some(302), json!({"stop": true}), vec![ex("/x", true, &["ru-ab2"])]),
@@ -118,10 +124,20 @@ pub struct Case {
     pub impact_action: String,
     #[serde(default)]
     pub example_method: Option<String>,
+    /// RouterConfig.ignore_path_and_query_case
+    #[serde(default)]
+    pub ignore_case: bool,
 }
 
+thread_local! {
+    static IGNORE_CASE: std::cell::Cell<bool> = const { std::cell::Cell::new(false) };
+}
+
+/// configuration of the case being checked on this thread (set at the top of check_case)
 fn config() -> RouterConfig {
-    RouterConfig::default()
+    let mut c = RouterConfig::default();
+    c.ignore_path_and_query_case = IGNORE_CASE.with(|c| c.get());
+    c
 }
 
 fn strip(v: &Value) -> Value {
@@ -251,7 +267,7 @@ fn router_of(rules: &[Value]) -> Router<Rule> {
 
 fn probe_answers(router: &Router<Rule>) -> Vec<Vec<String>> {
     let rc = config();
-    ["/a", "/b", "/c", "/s", "/x", "/p/x", "/zzz"]
+    ["/a", "/b", "/c", "/s", "/x", "/p/x", "/zzz", "/Shop/x", "/shop/x"]
         .iter()
         .map(|u| {
             let mut r = Request::from_config(&rc, u.to_string(), Some(HOST.to_string()), Some("https".into()), None, None, None);
@@ -301,6 +317,71 @@ fn live_pipeline(router: &Router<Rule>, example: &Example) -> Option<(u16, u16, 
     };
     let log = action.should_log_request(true, final_code, None);
     Some((final_code, backend, headers, out, log))
+}
+
+/// rule ids the live pipeline applies for one example (same call order as a proxy: request-time status, backend status,
+/// headers, body, log decision), and the final status code
+fn live_applied_ids(router: &Router<Rule>, example: &Example) -> Option<(BTreeSet<String>, u16)> {
+    let request = Request::from_example(&router.config, example).ok()?;
+    let routes = router.match_request(&request);
+    let mut action = Action::from_routes_rule(routes, &request, None);
+    let at_request = action.get_status_code(0, None);
+    let (final_code, backend) = if at_request != 0 {
+        (at_request, at_request)
+    } else {
+        let backend = example.response_status_code.unwrap_or(200);
+        (action.get_status_code(backend, None), backend)
+    };
+    action.filter_headers(vec![], backend, false, None);
+    if let Some(mut f) = action.create_filter_body(backend, &[]) {
+        f.filter(b"<html><head></head><body></body></html>".to_vec(), None);
+        f.end(None);
+    }
+    action.should_log_request(true, final_code, None);
+    Some((action.get_applied_rule_ids().iter().cloned().collect(), final_code))
+}
+
+/// Independent verdict on the examples of the final rule list: an example that must match fails when the live pipeline does
+/// not apply its rule, an example that must not match fails when it does. (Failures for other reasons - unit ids, redirect
+/// loops - are not asserted here.)
+fn check_example_verdicts(final_rules: &[Value], router: &Router<Rule>, output: &Value, out: &mut Vec<(String, String)>, ctx: &str) {
+    let mut expected_count = 0u64;
+    for r in final_rules {
+        let id = r["id"].as_str().unwrap_or("");
+        for exv in r["examples"].as_array().cloned().unwrap_or_default() {
+            let e: Example = match serde_json::from_value(exv.clone()) {
+                Ok(e) => e,
+                Err(_) => continue,
+            };
+            if e.unit_ids_applied.is_none() {
+                continue;
+            }
+            let (applied, final_code) = match live_applied_ids(router, &e) {
+                Some(x) => x,
+                None => continue,
+            };
+            expected_count += 1;
+            let rule_applied = applied.contains(id);
+            let listed = output["first_ten_failures"][id]["failed_examples"].as_array().map(|l| l.iter().any(|fe| fe["example"]["url"] == exv["url"] && fe["example"]["method"] == exv["method"] && fe["example"]["must_match"] == exv["must_match"] && fe["example"]["response_status_code"] == exv["response_status_code"])).unwrap_or(false);
+            let must_fail = (e.must_match && !rule_applied) || (!e.must_match && rule_applied);
+            if must_fail && !listed {
+                out.push((
+                    format!("test-examples:verdict-differs-from-live-pipeline:must_match={}:not-reported-as-failed", e.must_match),
+                    format!("rule {id} example {exv}: the live pipeline applies rules {applied:?}, so the example fails, but it is not listed in first_ten_failures; {ctx}"),
+                ));
+            }
+            let redirects = [301u16, 302, 307, 308].contains(&final_code);
+            if !must_fail && listed && !e.must_match && !redirects {
+                out.push((
+                    "test-examples:verdict-differs-from-live-pipeline:must_match=false:reported-as-failed".to_string(),
+                    format!("rule {id} example {exv}: the live pipeline applies rules {applied:?} (not this rule) and answers {final_code}, yet the example is listed as failed; {ctx}"),
+                ));
+            }
+        }
+    }
+    if output["example_count"].as_u64() != Some(expected_count) {
+        out.push(("test-examples:example-count".to_string(), format!("example_count {} but {expected_count} examples of the final rule list have expectations and a parsable request; {ctx}", output["example_count"])));
+    }
 }
 
 fn join_url(base: &str, location: &str) -> String {
@@ -394,6 +475,7 @@ fn check_loop(rl: &Value, max_hops: u8, out: &mut Vec<(String, String)>, ctx: &s
 }
 
 pub fn check_case(case: &Case) -> Vec<(String, String)> {
+    IGNORE_CASE.with(|c| c.set(case.ignore_case));
     let mut out: Vec<(String, String)> = Vec::new();
     let b = build(case);
     let cfg_json = serde_json::to_value(config()).unwrap();
@@ -420,6 +502,9 @@ pub fn check_case(case: &Case) -> Vec<(String, String)> {
     };
     if let (Ok(p), Ok(s)) = (&te_project, &te_standalone(&b.final_rules)) {
         compare("test-examples", p.clone(), s.clone(), &mut out);
+        if b.final_rules.len() <= 4 {
+            check_example_verdicts(&b.final_rules, &router_of(&b.final_rules), s, &mut out, &ctx);
+        }
         // loops inside failures
         if let Some(f) = s["first_ten_failures"].as_object() {
             for fr in f.values() {
@@ -565,7 +650,8 @@ pub fn cases(tier: Tier) -> Vec<Case> {
         }
     }
     let mut out = Vec::new();
-    let urls = ["/a", "/b", "/c", "/s", "/x", "/p/x", "/zzz", "http://[::1", "/n", "https://example.org/n"];
+    let urls = ["/a", "/b", "/c", "/s", "/x", "/p/x", "/zzz", "http://[::1", "/n", "https://example.org/n", "/Shop/x", "/shop/x"];
+    let dc = alphabet().iter().position(|v| v[0]["id"] == "dc").unwrap();
     for (bi, base) in bases.iter().enumerate() {
         let absent: Vec<usize> = (0..n).filter(|i| !base.contains(i)).collect();
         let mut change_sets: Vec<(Vec<usize>, Vec<usize>, Vec<usize>)> = vec![(vec![], vec![], vec![])];
@@ -597,7 +683,7 @@ pub fn cases(tier: Tier) -> Vec<Case> {
                         };
                         let action = ["update", "add", "delete"][(k + ui) % 3];
                         let example_method = if (k + ui) % 4 == 1 { Some("POST".to_string()) } else { None };
-                        out.push(Case {
+                        let c = Case {
                             base: base.clone(),
                             added: added.clone(),
                             updated: updated.clone(),
@@ -608,7 +694,12 @@ pub fn cases(tier: Tier) -> Vec<Case> {
                             example_code: code,
                             impact_action: action.to_string(),
                             example_method,
-                        });
+                            ignore_case: false,
+                        };
+                        if base.contains(&dc) || added.contains(&dc) || updated.contains(&dc) {
+                            out.push(Case { ignore_case: true, ..c.clone() });
+                        }
+                        out.push(c);
                     }
                 }
             }
